@@ -93,6 +93,7 @@ def load_contracts():
                 it.setdefault("file", header.get("file", "").strip())
                 it.setdefault("module", header.get("module", "").strip())
                 it.setdefault("paths", header.get("paths", ""))
+                it.setdefault("module_uses", header.get("module_uses", ""))
                 it["file"] = it["file"].strip()
                 iid = (prefix + "." if prefix else "") + it["id"]
                 it["id"] = iid
@@ -182,6 +183,7 @@ def build_request(unit, inst, contracts):
             "methods": {},
             "paths": dict(kv.split("=", 1) for kv in c.get("paths", "").split() if "=" in kv),
             "_module": c.get("module", ""),
+            "option_map": [int(x) for x in c.get("option_map", "").split()] if mode == "body" else [],
         }
         if c.get("ret", "").strip():
             req["ret_name"] = c["ret"].strip()
@@ -333,6 +335,9 @@ def assemble(unit, inst, contracts, outs):
         if module:
             a.add("pub mod %s {" % module, "header")
             a.add("use super::*;", "header")
+            mu = contracts[by_module[module][0][0]["id"].split("{")[0]].get("module_uses", "")
+            if mu.strip():
+                a.add(mu, "header")
         for o, req in by_module[module]:
             mode = req["mode"]
             a.add("// ===== %s  [%s]  %s:%d-%d" % (o["id"], mode, o["file"], o["start_line"], o["end_line"]), "item", o["id"])
